@@ -733,7 +733,30 @@ pub fn wellformed(map: &Beatmap) -> Result<(), String> {
         fin64("break start", b.start_time, -MAX_PARSE, MAX_PARSE)?;
         fin64("break end", b.end_time, b.start_time, MAX_PARSE)?;
     }
-    Ok(())
+    float_leaves_finite(map).map(|_| ())
+}
+
+/// Generic pass over the `Debug` rendering of the whole map: EVERY f32/f64 leaf (whatever struct or
+/// field it lives in, so a field added later is covered without touching this file) must be finite
+/// and within twice the parser limit.  Returns the number of float leaves and the distinct field
+/// names seen.
+pub fn float_leaves_finite(map: &Beatmap) -> Result<(usize, std::collections::BTreeSet<String>), String> {
+    use crate::debugvis::{debug_leaves, Leaf};
+    let dbg = format!("{map:?}");
+    let leaves = debug_leaves(&dbg).map_err(|e| format!("cannot parse the Debug output of Beatmap: {e}"))?;
+    let mut n = 0;
+    let mut names = std::collections::BTreeSet::new();
+    for (path, leaf) in &leaves {
+        if let Leaf::Float(v) = leaf {
+            n += 1;
+            let last = path.rsplit('.').next().unwrap_or(path);
+            names.insert(last.split('[').next().unwrap_or(last).to_owned());
+            if !v.is_finite() || v.abs() > 2.0 * MAX_PARSE + 2.0 {
+                return Err(format!("float field {path} = {v:?} is not finite / beyond twice the parser limit"));
+            }
+        }
+    }
+    Ok((n, names))
 }
 
 const EXTREME: [&str; 34] = [
@@ -882,7 +905,7 @@ fn repro_of(bytes: &[u8]) -> String {
 }
 
 /// Decodes through all three entry points and checks the C06 clauses.
-fn check_bytes(run: &mut Run, id: &str, bytes: &[u8], check_path: bool) {
+pub fn check_bytes(run: &mut Run, id: &str, bytes: &[u8], check_path: bool) {
     let via_bytes = decode_bytes(bytes);
     let map = match via_bytes {
         Err(p) => {
